@@ -298,6 +298,20 @@ class Facts:
             return ['<indirect>']
         path = c.get('resolved') or c['path']
         cands = self.bypath.get(path) or self.bypath.get(c['path']) or []
+        if not cands and t.get('_spliced') and (f.get('inst_self') or f.get('impl_self')) and '::' in path:
+            # a generic helper spliced into an instantiated body: `T::method(x)` with T = the caller's Self
+            me = f.get('inst_self') or f.get('impl_self')
+            trait, method = path.rsplit('::', 1)
+            for k in ('<%s as %s>::%s' % (me, trait, method), '%s@%s' % (path, me)):
+                if k in self.fns:
+                    return [k]
+        if not cands and '::' in path:
+            # a required trait method called on a generic receiver (no body under the trait's own path): class-hierarchy analysis
+            trait, method = path.rsplit('::', 1)
+            suffix = ' as %s>::%s' % (trait, method)
+            impls = sorted(k for k in self.fns if k.endswith(suffix))
+            if impls:
+                return impls
         if not cands:
             return ['ext:' + path]
         if len(cands) == 1:
